@@ -433,6 +433,9 @@ def rules(ctx):
     # something less than the edges) may be served to another one (same rule as C13.R5, restricted to the variables package)
     from .c13 import r5_shared_defaults
     r5_shared_defaults(ctx, rid="C01.R9", scope="leaspy.variables", title="the dependency closures a State invalidates with are computed from its own graph (no process-wide memo in leaspy.variables)")
+    # ... and the values a State hands out do not carry a memo of their own (a cached dense view copied along by `valued()` would be served
+    # next to a recomputed `.value`)
+    r5_shared_defaults(ctx, rid="C01.R9b", scope="leaspy.utils.weighted_tensor", title="no memoised method / shared container in the weighted-tensor classes (a value carries no stale view of itself)")
     # a block run with snapshotting switched off must switch it back on however it is left: otherwise later assignments take no snapshot and
     # a revert restores an older one - derived values of the rejected assignment are then served (same rule as C02.R7)
     # what a per-individual revert writes back is either the old or the current value of each entry - never an arithmetic mix (a NaN from
